@@ -873,17 +873,20 @@ Inductive delete_end (fails : nat -> bool) (uq : bool) (r : repo) (qs : list qen
 | DE_early o : refused o -> delete_end fails uq r qs name [] o
 | DE_late a d tip m0 o rest :
     classify name = Some a -> dest_of a = Some d -> assoc_str name (r_heads r) = Some tip ->
-    (d_kind d <> KHotfix -> mem_str (d_version d) (tag_names r) = false) ->
+    (d_kind d <> KHotfix -> already_archived r (archive_tag d) tip = false ->
+       mem_str (d_version d) (tag_names r) = false) ->
     (d_kind d = KDev -> existsb (stab_test d) (head_names r) = false) ->
     (uq = true -> has_version_queued_prs d qs = false) ->
     (m0 = [] \/ (m0 = [MDelete (queue_name_head ++ d_version d)%string] /\ uq = true /\ fails 0 = false /\
                  mem_str (queue_name_head ++ d_version d) (head_names r) = true)) ->
-    (* then: tag exists / tag push refused / branch deletion refused / done *)
-    (rest = [] /\ o = JobFailure RTagFailed /\
+    (* then: tag exists / tag push refused / branch deletion refused / done; or the resumed deletion *)
+    (rest = [] /\ o = JobFailure RTagFailed /\ already_archived r (archive_tag d) tip = false /\
        (mem_str (archive_tag d) (tag_names r) = true \/ exists i, fails i = true) \/
      rest = [MPushTag (archive_tag d) tip] /\ o = JobFailure RRemoveFailed /\ (exists i, fails i = true) \/
      rest = [MPushTag (archive_tag d) tip; MDelete name] /\ o = JobSuccess /\
-       mem_str (archive_tag d) (tag_names r) = false) ->
+       mem_str (archive_tag d) (tag_names r) = false \/
+     rest = [] /\ o = JobFailure RRemoveFailed /\ (exists i, fails i = true) \/
+     rest = [MDelete name] /\ o = JobSuccess /\ already_archived r (archive_tag d) tip = true) ->
     delete_end fails uq r qs name (m0 ++ rest) o.
 
 Lemma c20_refused_failure why : refused (JobFailure why).
@@ -899,54 +902,74 @@ Proof.
   2:{ intro H. injection H as <- <-. constructor. apply c20_refused_failure. }
   destruct (assoc_str name (r_heads r)) as [tip|] eqn:Ex.
   2:{ intro H. injection H as <- <-. constructor. left. reflexivity. }
-  destruct (negb (dkind_eqb (d_kind d) KHotfix) && mem_str (d_version d) (tag_names r)) eqn:Tg.
+  cbv zeta.
+  destruct (negb (dkind_eqb (d_kind d) KHotfix) && negb (already_archived r (archive_tag d) tip) &&
+            mem_str (d_version d) (tag_names r)) eqn:Tg.
   { intro H. injection H as <- <-. constructor. apply c20_refused_failure. }
   destruct (dkind_eqb (d_kind d) KDev && existsb _ (head_names r)) eqn:St.
   { intro H. injection H as <- <-. constructor. apply c20_refused_failure. }
   destruct (uq && has_version_queued_prs d qs) eqn:Qd.
   { intro H. injection H as <- <-. constructor. apply c20_refused_failure. }
-  cbv zeta.
-  assert (HTg : d_kind d <> KHotfix -> mem_str (d_version d) (tag_names r) = false).
-  { intro K. destruct (d_kind d); try contradiction; cbn in Tg; exact Tg. }
+  assert (HTg : d_kind d <> KHotfix -> already_archived r (archive_tag d) tip = false ->
+                mem_str (d_version d) (tag_names r) = false).
+  { intros K R. rewrite R in Tg. destruct (d_kind d); try contradiction; cbn in Tg; exact Tg. }
   assert (HSt : d_kind d = KDev -> existsb (stab_test d) (head_names r) = false).
   { intro K. rewrite K in St. exact St. }
   assert (HQd : uq = true -> has_version_queued_prs d qs = false) by (intros ->; exact Qd).
   set (qn := (queue_name_head ++ d_version d)%string).
   destruct (uq && mem_str qn (head_names r)) eqn:Dq.
   - apply andb_true_iff in Dq as [Uq Mq]. cbn [andb].
-    assert (M0 : [MDelete qn] = [] \/ ([MDelete qn] = [MDelete qn] /\ uq = true /\ fails 0 = false /\
-                   mem_str qn (head_names r) = true) -> True) by (intros _; exact I).
     destruct (fails 0) eqn:F0.
     { intro H. injection H as <- <-. constructor. apply c20_refused_failure. }
     assert (HM : [MDelete qn] = [] \/ ([MDelete qn] = [MDelete qn] /\ uq = true /\ fails 0 = false /\
                    mem_str qn (head_names r) = true)) by (right; auto).
+    destruct (already_archived r (archive_tag d) tip) eqn:Res.
+    { destruct (fails 1) eqn:F1.
+      - intro H. injection H as <- <-.
+        apply (DE_late fails uq r qs name a d tip [MDelete qn] _ []); auto; try (intros K R; congruence); try (intros K R; apply HTg; [exact K | reflexivity]).
+        right. right. right. left. split; [reflexivity|]. split; [reflexivity|]. exists 1%nat. exact F1.
+      - intro H. injection H as <- <-.
+        apply (DE_late fails uq r qs name a d tip [MDelete qn] _ [MDelete name]); auto; try (intros K R; congruence); try (intros K R; apply HTg; [exact K | reflexivity]).
+        right. right. right. right. auto. }
     destruct (mem_str (archive_tag d) (tag_names r)) eqn:At.
     { intro H. injection H as <- <-.
-      apply (DE_late fails uq r qs name a d tip [MDelete qn] _ []); auto. }
+      apply (DE_late fails uq r qs name a d tip [MDelete qn] _ []); auto; try (intros K R; congruence); try (intros K R; apply HTg; [exact K | reflexivity]).
+      try (left; split; [reflexivity|]; split; [reflexivity|]; split; [exact Res|]; left; exact At). }
     destruct (fails 1) eqn:F1.
     { intro H. injection H as <- <-.
-      apply (DE_late fails uq r qs name a d tip [MDelete qn] _ []); auto.
-      left. split; [reflexivity|]. split; [reflexivity|]. right. exists 1%nat. exact F1. }
+      apply (DE_late fails uq r qs name a d tip [MDelete qn] _ []); auto; try (intros K R; congruence); try (intros K R; apply HTg; [exact K | reflexivity]).
+      left. split; [reflexivity|]. split; [reflexivity|]. split; [exact Res|]. right. exists 1%nat. exact F1. }
     destruct (fails 2) eqn:F2.
     { intro H. injection H as <- <-.
-      apply (DE_late fails uq r qs name a d tip [MDelete qn] _ [MPushTag (archive_tag d) tip]); auto.
+      apply (DE_late fails uq r qs name a d tip [MDelete qn] _ [MPushTag (archive_tag d) tip]); auto; try (intros K R; congruence); try (intros K R; apply HTg; [exact K | reflexivity]).
       right. left. split; [reflexivity|]. split; [reflexivity|]. exists 2%nat. exact F2. }
     intro H. injection H as <- <-.
-    apply (DE_late fails uq r qs name a d tip [MDelete qn] _ [MPushTag (archive_tag d) tip; MDelete name]); auto.
+    apply (DE_late fails uq r qs name a d tip [MDelete qn] _ [MPushTag (archive_tag d) tip; MDelete name]); auto; try (intros K R; congruence); try (intros K R; apply HTg; [exact K | reflexivity]).
+    try (right; right; left; auto).
   - cbn [andb].
+    destruct (already_archived r (archive_tag d) tip) eqn:Res.
+    { destruct (fails 0) eqn:F0.
+      - intro H. injection H as <- <-.
+        apply (DE_late fails uq r qs name a d tip [] _ []); auto; try (intros K R; congruence); try (intros K R; apply HTg; [exact K | reflexivity]).
+        right. right. right. left. split; [reflexivity|]. split; [reflexivity|]. exists 0%nat. exact F0.
+      - intro H. injection H as <- <-.
+        apply (DE_late fails uq r qs name a d tip [] _ [MDelete name]); auto; try (intros K R; congruence); try (intros K R; apply HTg; [exact K | reflexivity]).
+        right. right. right. right. auto. }
     destruct (mem_str (archive_tag d) (tag_names r)) eqn:At.
     { intro H. injection H as <- <-.
-      apply (DE_late fails uq r qs name a d tip [] _ []); auto. }
+      apply (DE_late fails uq r qs name a d tip [] _ []); auto; try (intros K R; congruence); try (intros K R; apply HTg; [exact K | reflexivity]).
+      try (left; split; [reflexivity|]; split; [reflexivity|]; split; [exact Res|]; left; exact At). }
     destruct (fails 0) eqn:F0.
     { intro H. injection H as <- <-.
-      apply (DE_late fails uq r qs name a d tip [] _ []); auto.
-      left. split; [reflexivity|]. split; [reflexivity|]. right. exists 0%nat. exact F0. }
+      apply (DE_late fails uq r qs name a d tip [] _ []); auto; try (intros K R; congruence); try (intros K R; apply HTg; [exact K | reflexivity]).
+      left. split; [reflexivity|]. split; [reflexivity|]. split; [exact Res|]. right. exists 0%nat. exact F0. }
     destruct (fails 1) eqn:F1.
     { intro H. injection H as <- <-.
-      apply (DE_late fails uq r qs name a d tip [] _ [MPushTag (archive_tag d) tip]); auto.
+      apply (DE_late fails uq r qs name a d tip [] _ [MPushTag (archive_tag d) tip]); auto; try (intros K R; congruence); try (intros K R; apply HTg; [exact K | reflexivity]).
       right. left. split; [reflexivity|]. split; [reflexivity|]. exists 1%nat. exact F1. }
     intro H. injection H as <- <-.
-    apply (DE_late fails uq r qs name a d tip [] _ [MPushTag (archive_tag d) tip; MDelete name]); auto.
+    apply (DE_late fails uq r qs name a d tip [] _ [MPushTag (archive_tag d) tip; MDelete name]); auto; try (intros K R; congruence); try (intros K R; apply HTg; [exact K | reflexivity]).
+    try (right; right; left; auto).
 Qed.
 
 (* what the statement promises of a successful delete-branch *)
@@ -989,6 +1012,18 @@ Proof.
   apply c20_optN_eqb_eq. reflexivity.
 Qed.
 
+Lemma c20_assoc_str_in {A} n (l : list (string * A)) v : assoc_str n l = Some v -> In (n, v) l.
+Proof.
+  induction l as [|[k x] t IH]; cbn [assoc_str]; [discriminate|].
+  destruct (String.eqb_spec k n) as [->|Ne]; intro H; [injection H as ->; left; reflexivity | right; exact (IH H)].
+Qed.
+
+Lemma c20_already_archived_in r tag tip : already_archived r tag tip = true -> In (tag, tip) (r_tags r).
+Proof.
+  unfold already_archived. destruct (assoc_str tag (r_tags r)) as [c|] eqn:E; [|discriminate].
+  intro H. apply Nat.eqb_eq in H. subst c. exact (c20_assoc_str_in _ _ _ E).
+Qed.
+
 Theorem c20_delete_proof :
   forall fails uq r qs name ms, (uq = false -> qs = []) ->
     delete_branch fails uq r qs name = (ms, JobSuccess) ->
@@ -997,17 +1032,22 @@ Proof.
   intros fails uq r qs name ms Nq H. apply c20_delete_ends in H.
   inversion H as [o Ro | a d tip m0 o rest Cl De Ex HTg HSt HQd Hm0 Hrest]; subst.
   - destruct Ro as [E|[E|[w E]]]; discriminate E.
-  - destruct Hrest as [(_ & E & _)|[(_ & E & _)|(-> & _ & At)]]; try discriminate E.
-    unfold delete_promise. exists d, tip.
-    split; [exact (c20_parse_dest_of _ _ _ Cl De)|]. split; [exact Ex|].
-    assert (Q : ~ has_queued_prs qs d).
+  - assert (Q : ~ has_queued_prs qs d).
     { destruct uq; [exact (c20_has_version_spec _ _ (HQd eq_refl))|].
       rewrite (Nq eq_refl). intros (e & _ & [] & _). }
     assert (S : d_kind d = KDev -> ~ live_stabilization r d).
     { intros K. exact (c20_stab_test_live r d (HSt K)). }
-    destruct Hm0 as [->|[-> _]]; cbn [app apply_mutations fold_left apply_mutation r_tags r_heads head_names].
-    + split; [apply in_or_app; right; left; reflexivity|]. split; [apply c20_remove_head_names|]. auto.
-    + split; [apply in_or_app; right; left; reflexivity|]. split; [apply c20_remove_head_names|]. auto.
+    unfold delete_promise. exists d, tip.
+    split; [exact (c20_parse_dest_of _ _ _ Cl De)|]. split; [exact Ex|].
+    destruct Hrest as [(_ & E & _)|[(_ & E & _)|[(-> & _ & At)|[(_ & E & _)|(-> & _ & Res)]]]]; try discriminate E.
+    + destruct Hm0 as [->|[-> _]]; cbn [app apply_mutations fold_left apply_mutation r_tags r_heads head_names].
+      * split; [apply in_or_app; right; left; reflexivity|]. split; [apply c20_remove_head_names|]. auto.
+      * split; [apply in_or_app; right; left; reflexivity|]. split; [apply c20_remove_head_names|]. auto.
+    + (* resumed: the tag was already on the tip *)
+      apply c20_already_archived_in in Res.
+      destruct Hm0 as [->|[-> _]]; cbn [app apply_mutations fold_left apply_mutation r_tags r_heads head_names].
+      * split; [exact Res|]. split; [apply c20_remove_head_names|]. auto.
+      * split; [exact Res|]. split; [apply c20_remove_head_names|]. auto.
 Qed.
 
 (* the former witness: a stabilization branch whose name carries a leading zero was not seen by the string test *)
@@ -1084,7 +1124,12 @@ Proof.
       assert (P : String.prefix "q/" name = false) by exact (c20_dest_not_queue _ _ (c20_parse_dest_of _ _ _ Cl De)).
       assert (T : String.prefix "q/" name = true) by (rewrite E; exact (c20_prefix_of_app "q/" (d_version d))).
       congruence. }
-    destruct Hrest as [(-> & -> & Why)|[(-> & -> & Why)|(-> & -> & _)]].
+    destruct Hrest as [(-> & -> & Res & Why)|[(-> & -> & Why)|[(-> & -> & _)|[(-> & -> & Why)|(-> & -> & _)]]]].
+    4:{ destruct Why as [i Fi]. rewrite app_nil_r. destruct Hm0 as [->|[-> _]].
+        - split; [left; reflexivity|]. split; [intros []|]. intros _. left. reflexivity.
+        - split; [right; left; reflexivity|]. split; [intros [E|[]]; exact (Nn (eq_sym E))|].
+          intro NF. rewrite NF in Fi. discriminate Fi. }
+    4:{ destruct Ro as [E|[E|[w E]]]; discriminate E. }
     + rewrite app_nil_r. destruct Hm0 as [->|[-> (Uq & F0 & Mq)]].
       * split; [left; reflexivity|]. split; [intros []|]. intros _. left. reflexivity.
       * split; [right; left; reflexivity|]. split; [intros [E|[]]; exact (Nn (eq_sym E))|].
@@ -1092,7 +1137,7 @@ Proof.
         right. split; [reflexivity|]. apply mem_str_In in Mq.
         assert (Kh : d_kind d = KHotfix).
         { destruct (d_kind d) eqn:K; [exfalso | exfalso | reflexivity]; unfold archive_tag in At; rewrite K in At;
-            rewrite HTg in At by discriminate; discriminate At. }
+            rewrite HTg in At by (first [discriminate | exact Res]); discriminate At. }
         apply mem_str_In in At. auto.
     + destruct Why as [i Fi]. destruct Hm0 as [->|[-> _]]; cbn [app].
       * split; [right; right; left; reflexivity|]. split; [intros [E|[]]; discriminate E|].
@@ -1396,6 +1441,17 @@ Proof.
     destruct i; discriminate H.
   - split; [vm_compute; reflexivity|]. split; [vm_compute; reflexivity | discriminate].
 Qed.
+
+(* delete-branch resumed: the archive tag is already on the tip (an earlier run pushed it and was refused the
+   deletion); a tag of that name on another commit still refuses *)
+Example c20_ex_delete_resumes :
+  let r1 := mkRepo (r_st c20_ex_repo) (r_heads c20_ex_repo) [("5.1.3", 1%nat); ("4.3", 1%nat)] in
+  let r2 := mkRepo (r_st c20_ex_repo) (r_heads c20_ex_repo) [("5.1.3", 1%nat); ("4.3", 0%nat)] in
+  delete_branch no_fault true r1 c20_ex_queues "development/4.3" = ([MDelete "development/4.3"], JobSuccess) /\
+  delete_branch no_fault true r2 c20_ex_queues "development/4.3" = ([], JobFailure RArchiveTag) /\
+  delete_branch (fun i => Nat.eqb i 1) true c20_ex_repo c20_ex_queues "development/4.3" =
+    ([MPushTag "4.3" 1%nat], JobFailure RRemoveFailed).
+Proof. vm_compute. repeat split; reflexivity. Qed.
 
 Example c20_ex_canonical :
   canonical_version "4.3" = true /\ canonical_version "04.3" = false /\ canonical_version "10.0.0" = true /\
